@@ -86,6 +86,32 @@ func (c *c13Oracle) Check(w *World, o *Obs) []Violation {
 			c.authedOK[st.B] = 0
 		}
 	}
+	// with e-mail authorisation required, the enrolment routes must not be
+	// served to a fully authenticated session that lacks it
+	switch st.Kind {
+	case "totp_setup", "totp_setup_get", "totp_confirm", "sms_setup", "sms_setup_get", "sms_confirm":
+		ua := w.acctByPID(uid)
+		authorised := o.SessBefore["twofactor_authed"] == "true" && c.authedOK[st.B] == ua+1
+		if cfg.EmailAuth2FA && full && ua >= 0 && o.RowsBefore[uid] != nil && !authorised && o.FaultFired == "" && !o.errorOutcome() {
+			sentToVerify := strings.Contains(o.Location, "/email/verify")
+			_, putSecret := o.sessPut("totp_secret")
+			_, putNumber := o.sessPut("sms_number")
+			if !sentToVerify || putSecret || putNumber {
+				why := "no_mark"
+				if o.SessBefore["twofactor_authed"] == "true" {
+					why = "mark_without_token"
+					if c.authedOK[st.B] > 0 {
+						why = "mark_of_other_account"
+					}
+				}
+				out = append(out, viol("C13", "enrolment_route_served_without_email_auth", st.Kind, o,
+					fmt.Sprintf("%s %s was served (status %d, location %q) to a session of %s that has not presented the token mailed to it (%s)", o.Method, o.Target, o.Status, o.Location, uid, why), "why", why))
+			} else {
+				w.Stats.Reach["c13_enrolment_route_gated"]++
+			}
+		}
+	}
+
 	for pid, after := range o.RowsAfter {
 		before := o.RowsBefore[pid]
 		if before == nil {
